@@ -14,7 +14,7 @@ func init() {
 	register(&Rule{ID: "E-UNITS", Props: []string{"C11", "C12", "C18", "C02"}, Floor: 60,
 		Doc: "byte quantities (len of a string, strings.Index results, utf8 decode sizes and their sums) and code-point/element quantities (utf8.RuneCount, len of arrays, counts, integers from the query or from numeric arguments) never meet in arithmetic, comparisons or merged variables, except the coarse guard `codepoints > bytes` that exits or clamps; strings are cut only at byte offsets; no byte quantity becomes part of a result; the byte length of a string is not compared with a non-zero constant",
 		Run: ruleEUnits})
-	register(&Rule{ID: "E-DECODE-ADVANCE", Props: []string{"C11", "C12", "C03", "C09"}, Floor: 12,
+	register(&Rule{ID: "E-DECODE-ADVANCE", Props: []string{"C11", "C12", "C03", "C09", "C18"}, Floor: 12,
 		Doc: "inside a loop, every utf8 decode (and every Lexer.decodeRune) reads from a position that changes with that loop: its argument depends on a variable updated in the loop (a loop phi or a location stored to inside the loop), never on something fixed before the loop",
 		Run: ruleEDecodeAdvance})
 }
